@@ -1,0 +1,132 @@
+//! Verification hooks for the strain-section bookkeeping (`--cfg rosu_pp_verif`).
+//!
+//! The probe skills are produced by the very same `define_skill!` macro as the
+//! real skills; only the strain evaluators are replaced by values carried in
+//! the probe object. Nothing here changes behaviour of the library.
+
+use crate::{
+    any::difficulty::{
+        object::{HasStartTime, IDifficultyObject},
+        skills::StrainSkill,
+    },
+    util::strains_vec::StrainsVec,
+};
+
+/// What `StrainSkill::process` reads of a difficulty object, plus the values
+/// the probe's strain functions return for it.
+#[derive(Copy, Clone, Debug, PartialEq)]
+pub struct ProbeObject {
+    pub idx: usize,
+    pub start_time: f64,
+    /// Returned by `strain_value_at`.
+    pub strain: f64,
+    /// Returned by `calculate_initial_strain`.
+    pub initial: f64,
+}
+
+impl HasStartTime for ProbeObject {
+    fn start_time(&self) -> f64 {
+        self.start_time
+    }
+}
+
+impl IDifficultyObject for ProbeObject {
+    type DifficultyObjects = [ProbeObject];
+
+    fn idx(&self) -> usize {
+        self.idx
+    }
+}
+
+define_skill! {
+    /// Like the osu!, taiko and mania skills: trait defaults
+    /// (`SECTION_LENGTH = 400`, `DECAY_WEIGHT = 0.9`).
+    pub struct ProbeSkillDefault: StrainSkill => [ProbeObject][ProbeObject] {
+        section_times: Vec<f64> = Vec::new(),
+    }
+}
+
+impl ProbeSkillDefault {
+    fn strain_value_at(&mut self, curr: &ProbeObject, _: &[ProbeObject]) -> f64 {
+        curr.strain
+    }
+
+    fn calculate_initial_strain(&mut self, time: f64, curr: &ProbeObject, _: &[ProbeObject]) -> f64 {
+        self.section_times.push(time);
+
+        curr.initial
+    }
+}
+
+define_skill! {
+    /// Like catch's `Movement`: inherent `SECTION_LENGTH = 750.0` and
+    /// `DECAY_WEIGHT = 0.94` shadowing the trait constants.
+    pub struct ProbeSkillCatch: StrainSkill => [ProbeObject][ProbeObject] {
+        section_times: Vec<f64> = Vec::new(),
+    }
+}
+
+impl ProbeSkillCatch {
+    const DECAY_WEIGHT: f64 = 0.94;
+    const SECTION_LENGTH: f64 = 750.0;
+
+    fn strain_value_at(&mut self, curr: &ProbeObject, _: &[ProbeObject]) -> f64 {
+        curr.strain
+    }
+
+    fn calculate_initial_strain(&mut self, time: f64, curr: &ProbeObject, _: &[ProbeObject]) -> f64 {
+        self.section_times.push(time);
+
+        curr.initial
+    }
+}
+
+/// Everything observable after processing a sequence of probe objects.
+#[derive(Clone, Debug, PartialEq)]
+pub struct ProbeOutcome {
+    /// `into_current_strain_peaks().into_vec()`, i.e. what `strains()` exports.
+    pub peaks: Vec<f64>,
+    /// `len()` of `into_current_strain_peaks()`.
+    pub peaks_len: usize,
+    /// `cloned_difficulty_value()`
+    pub difficulty_value: f64,
+    /// The `time` argument of every `start_new_section_from` call.
+    pub section_times: Vec<f64>,
+}
+
+macro_rules! run_probe {
+    ( $skill:ident, $objects:ident ) => {{
+        let mut skill = $skill::new();
+
+        for curr in $objects.iter() {
+            skill.process(curr, $objects);
+        }
+
+        let difficulty_value = skill.cloned_difficulty_value();
+        let section_times = skill.section_times.clone();
+        let peaks = skill.into_current_strain_peaks();
+        let peaks_len = peaks.len();
+
+        ProbeOutcome {
+            peaks: peaks.into_vec(),
+            peaks_len,
+            difficulty_value,
+            section_times,
+        }
+    }};
+}
+
+/// Processes `objects` in order with a probe skill; `catch_like` selects
+/// the 750ms / 0.94 variant.
+pub fn run_probe_skill(objects: &[ProbeObject], catch_like: bool) -> ProbeOutcome {
+    if catch_like {
+        run_probe!(ProbeSkillCatch, objects)
+    } else {
+        run_probe!(ProbeSkillDefault, objects)
+    }
+}
+
+/// `any::difficulty::skills::difficulty_value`
+pub fn generic_difficulty_value(peaks: StrainsVec, decay_weight: f64) -> f64 {
+    crate::any::difficulty::skills::difficulty_value(peaks, decay_weight)
+}
